@@ -218,64 +218,93 @@ def _composite_init_paths(ctx: Ctx) -> Tuple[ClassInfo, FuncInfo, List[Path]]:
     return c, init, paths
 
 
+def model_hook_logging(ctx: Ctx, cls: Any, log: List[Any]) -> Any:
+    """the model hook of C15 with the calls to check_name recorded in `log`"""
+    from ..absint import ctor_hook, module_call_hook, path_hook
+    from .c02 import _layout_hook
+
+    return path_hook(ctor_hook(ctx, module_call_hook(ctx, cls.module, [], log, results={"check_name": None}, record=["check_name"], base_hook=_layout_hook(ctx, cls.module, cls))))
+
+
+def build_model(ctx: Ctx, cls_short: str, log: Optional[List[Any]] = None, **kw: Any) -> Any:
+    """the abstract instance a class of the type model builds for the arguments, or the name of the exception class raised"""
+    from ..absint import Raised, construct
+
+    c = ctx.cls(cls_short)
+    try:
+        return construct(ctx, c, hook=model_hook_logging(ctx, c, log if log is not None else []), **kw)
+    except Raised as r:
+        return r.cls_name
+    except Unfoldable as ex:
+        raise AnalysisError("cannot evaluate the constructor of %s over abstract arguments: %s" % (c.name, ex))
+
+
+def attribute_sym(ctx: Ctx, kind: str, name: str, bits: int = 8) -> Sym:
+    """an abstract Field / PaddingField / Constant whose type accepts any aggregation"""
+    from ..absint import Recorder
+    from ..codec import isa_of
+    from ..layout import TBls
+
+    dt = Sym(_kind_="UnsignedIntegerType", _isa_=isa_of(ctx, SER + "_primitive.UnsignedIntegerType"), bit_length=bits, bit_length_set=TBls.of(bits), alignment_requirement=1, _check_aggregation=Recorder("_check_aggregation", None), extent=bits)
+    return Sym(_kind_=kind, _isa_=isa_of(ctx, SER + "_attribute." + kind), name=name, data_type=dt, doc="")
+
+
+def structure(ctx: Ctx, name: str = "ns.T", version: Tuple[int, int] = (1, 0), attributes: Sequence[Any] = (), pid: Any = None, half: bool = False, log: Optional[List[Any]] = None, kind: str = "StructureType") -> Any:
+    from .c11 import _version
+
+    comps = name.strip().split(".")
+    dirs = comps[: -2 if half else -1]
+    path = "/r/%s/X.1.0.dsdl" % "/".join(dirs) if dirs and all(dirs) else "/r/ns/X.1.0.dsdl"
+    return build_model(ctx, SER + "_composite." + kind, log, name=name, version=_version(*version), attributes=list(attributes), deprecated=False, fixed_port_id=pid, source_file_path=path, has_parent_service=half, doc="")
+
+
 def rule_r3_composite(ctx: Ctx) -> None:
     repo = ctx.repo
     ctx.rule("C05.R3", "CompositeType.__init__: version region 0..255 x 0..255 minus 0.0; port-ID region [0,8191] subjects / [0,511] services; name length <= 255; unique attribute names; every name component checked", min_instances=5)
-    c, init, paths = _composite_init_paths(ctx)
+    c = ctx.cls(SER + "_composite.CompositeType")
+    init = c.methods.get("__init__")
+    where = init.where() if init else c.module.relpath
+    anchor = c.short + ".__init__"
     pid_mod = repo.module("_port_id_ranges")
+    rejected: Set[str] = set()
+
+    def outcome(o: Any) -> bool:
+        if isinstance(o, str):
+            rejected.add(o)
+            return False
+        return True
 
     # version
     vals = [-1, 0, 1, 254, 255, 256]
-    res = evaluate_region(
-        paths,
-        [{"major": a, "minor": b} for a in vals for b in vals],
-        lambda cond: mentions(cond, ["version", "self._version", "self.version"]),
-        lambda v: Folder({"version.major": v["major"], "version.minor": v["minor"]}, repo, init.module, c),
-        None,
-        key=lambda v: (v["major"], v["minor"]),
-    )
     want = lambda a, b: 0 <= a <= spec.MAX_VERSION and 0 <= b <= spec.MAX_VERSION and (a + b) > 0  # noqa: E731
-    bad = [{"version": "%d.%d" % k, "found": acc} for k, acc in res.accepted.items() if acc != want(*k)]
-    ctx.count(len(res.accepted))
-    ctx.check(not bad, init.short, "version region", "version accepted iff 0<=major,minor<=255 and not 0.0", init.where(), bad[:6])
-    nonide = sorted({ex for k, acc in res.accepted.items() if not acc for ex in res.raised[k] if not _is_ide(ctx, [init], c, ex)})
-    ctx.check(not nonide, init.short, "version rejection class", "rejections must be InvalidDefinitionError subclasses", init.where(), nonide)
+    bad = []
+    for a in vals:
+        for b in vals:
+            acc = outcome(structure(ctx, version=(a, b)))
+            ctx.count()
+            if acc != want(a, b):
+                bad.append({"version": "%d.%d" % (a, b), "found": "accepted" if acc else "rejected"})
+    ctx.check(not bad, anchor, "version region", "version accepted iff 0<=major,minor<=255 and not 0.0", where, bad[:6])
 
-    # port id, by kind
-    svc = ctx.cls(SER + "_composite.ServiceType")
-
-    def make_folder(v: Dict[str, Any]) -> Folder:
-        def hook(e: ast.expr, f: Folder) -> Any:
-            if isinstance(e, ast.Call) and dotted(e.func) == "isinstance" and len(e.args) == 2 and norm(e.args[0]) == "self":
-                k = repo.resolve_expr(init.module, e.args[1], c)
-                if k is svc:
-                    return v["service"]
-                raise Unfoldable("isinstance(self, %s)" % unparse(e.args[1]))
-            return NotImplemented
-
-        return Folder({"fixed_port_id": v["pid"]}, repo, init.module, c, hook)
-
+    # port id, by kind: subjects on a message type, services on the service object built from two halves
+    rq = structure(ctx, name="ns.T.Request", half=True)
+    rs = structure(ctx, name="ns.T.Response", half=True)
+    if isinstance(rq, str) or isinstance(rs, str):
+        raise AnalysisError("the halves of a service cannot be constructed over abstract arguments: %s / %s" % (rq, rs))
     pids = [None, -1, 0, 1, 510, 511, 512, 8190, 8191, 8192]
-    res = evaluate_region(
-        paths,
-        [{"pid": p, "service": s} for p in pids for s in (False, True)],
-        lambda cond: mentions(cond, ["fixed_port_id", "self._fixed_port_id", "port_id"]) or (isinstance(cond, ast.Call) and dotted(cond.func) == "isinstance" and norm(cond.args[0]) == "self"),
-        make_folder,
-        None,
-        key=lambda v: (v["pid"], v["service"]),
-    )
 
-    def want_pid(p: Any, s: bool) -> bool:
-        if p is None:
-            return True
-        return 0 <= p <= (spec.MAX_SERVICE_ID if s else spec.MAX_SUBJECT_ID)
+    def want_pid(p: Any, svc: bool) -> bool:
+        return p is None or 0 <= p <= (spec.MAX_SERVICE_ID if svc else spec.MAX_SUBJECT_ID)
 
-    bad = [{"port_id": k[0], "service": k[1], "found": acc} for k, acc in res.accepted.items() if acc != want_pid(*k)]
-    ctx.count(len(res.accepted))
-    ctx.check(not bad, init.short, "port-ID region", "fixed port-ID accepted iff None or within [0,8191] (subject) / [0,511] (service)", init.where(), bad[:6])
-    nonide = sorted({ex for k, acc in res.accepted.items() if not acc for ex in res.raised[k] if not _is_ide(ctx, [init], c, ex)})
-    ctx.check(not nonide, init.short, "port-ID rejection class", "rejections must be InvalidDefinitionError subclasses", init.where(), nonide)
-    # the constants themselves
+    bad = []
+    for p_ in pids:
+        for svc in (False, True):
+            o = build_model(ctx, SER + "_composite.ServiceType", request=rq, response=rs, fixed_port_id=p_) if svc else structure(ctx, pid=p_)
+            acc = outcome(o)
+            ctx.count()
+            if acc != want_pid(p_, svc):
+                bad.append({"port_id": p_, "service": svc, "found": "accepted" if acc else "rejected (%s)" % o})
+    ctx.check(not bad, anchor, "port-ID region", "fixed port-ID accepted iff None or within [0,8191] (subject) / [0,511] (service)", where, bad[:6])
     for cname, want_v in (("MAX_SUBJECT_ID", spec.MAX_SUBJECT_ID), ("MAX_SERVICE_ID", spec.MAX_SERVICE_ID)):
         e = pid_mod.assigns.get(cname)
         if e is None:
@@ -283,72 +312,41 @@ def rule_r3_composite(ctx: Ctx) -> None:
         got = Folder({}, repo, pid_mod).fold(e)
         ctx.check(got == want_v, "_port_id_ranges." + cname, norm(e), "%s must be %d" % (cname, want_v), pid_mod.relpath, got)
 
-    # name: empty / no separator / too long, decided on the name parameter
-    names = {
-        "": False,
-        "   ": False,
-        "a": False,
-        "ns.T": True,
-        "ns." + "T" * 252: True,  # 255 characters
-        "ns." + "T" * 253: False,  # 256 characters
+    # name: empty / no separator / too long
+    names = {"": False, "   ": False, "a": False, "ns.T": True, "ns." + "T" * 252: True, "ns." + "T" * 253: False}
+    bad = []
+    for nm, ok in names.items():
+        acc = outcome(structure(ctx, name=nm))
+        ctx.count()
+        if acc != ok:
+            bad.append({"name": (nm if len(nm) < 12 else "%s...(%d chars)" % (nm[:8], len(nm))), "found": "accepted" if acc else "rejected"})
+    ctx.check(not bad, anchor, "name shape region", "a composite name must be non-empty, contain a namespace, and be at most 255 characters", where, bad)
+
+    # every component goes through check_name
+    log: List[Any] = []
+    o = structure(ctx, name="ns.sub.deeper.T", log=log)
+    checked = [a[0] for n_, a, _k in log if n_ == "check_name" and a]
+    ctx.count()
+    ctx.check(not isinstance(o, str) and sorted(checked) == sorted(["ns", "sub", "deeper", "T"]), anchor, "check_name over all name components: %s" % checked, "every '.'-separated component of the full name must pass check_name", where, o if isinstance(o, str) else None)
+
+    # attribute-name uniqueness
+    F = lambda n: attribute_sym(ctx, "Field", n)  # noqa: E731
+    K = lambda n: attribute_sym(ctx, "Constant", n)  # noqa: E731
+    P = lambda: attribute_sym(ctx, "PaddingField", "")  # noqa: E731
+    cases = {
+        "a, b": ([F("a"), F("b")], True), "a, a": ([F("a"), F("a")], False), "a, K a": ([F("a"), K("a")], False), "K a, b, K a": ([K("a"), F("b"), K("a")], False),
+        "two paddings": ([P(), F("a"), P()], True), "a, b, c, b": ([F("a"), F("b"), F("c"), F("b")], False),
     }
-
-    def name_folder(v: Dict[str, Any]) -> Folder:
-        def hook(e: ast.expr, f: Folder) -> Any:
-            if isinstance(e, ast.Call) and isinstance(e.func, ast.Attribute) and e.func.attr == "strip" and not e.args:
-                return str(f.fold(e.func.value)).strip()
-            return NotImplemented
-
-        return Folder({"name": v["name"]}, repo, init.module, c, hook)
-
-    res = evaluate_region(
-        paths,
-        [{"name": n} for n in names],
-        lambda cond: mentions(cond, ["name", "self._name"]) and not mentions(cond, ["a.name", "self._name_components", "namespace_components", "component"]),
-        name_folder,
-        None,
-        key=lambda v: v["name"],
-    )
-    bad = [{"name": (k if len(k) < 12 else "%s...(%d chars)" % (k[:8], len(k))), "found": acc} for k, acc in res.accepted.items() if acc != names[k]]
-    ctx.count(len(names))
-    ctx.check(not bad, init.short, "name shape region", "a composite name must be non-empty, contain a namespace, and be at most 255 characters", init.where(), bad)
-
-    # every component goes through check_name: `for component in <name split on the separator>: check_name(component)`
-    found_loop = False
-    for st in walk_no_nested(init.node):
-        if isinstance(st, ast.For) and isinstance(st.target, ast.Name):
-            it = norm(st.iter)
-            calls = [cl for s in st.body for cl in calls_in(s)]
-            if any(dotted(cl.func) == "check_name" and len(cl.args) == 1 and norm(cl.args[0]) == st.target.id for cl in calls):
-                if it in ("self._name_components", "self.name_components"):
-                    # unconditional inside the loop?
-                    direct = any(isinstance(s, ast.Expr) and isinstance(s.value, ast.Call) and dotted(s.value.func) == "check_name" for s in st.body)
-                    found_loop = found_loop or direct
-    split_ok = False
-    for st in walk_no_nested(init.node):
-        if isinstance(st, ast.Assign) and any(dotted(t) == "self._name_components" for t in st.targets):
-            v = st.value
-            if isinstance(v, ast.Call) and isinstance(v.func, ast.Attribute) and v.func.attr == "split" and norm(v.func.value) == "self._name" and len(v.args) == 1:
-                try:
-                    sep = Folder({}, repo, init.module, c).fold(v.args[0])
-                except Unfoldable:
-                    sep = None
-                split_ok = sep == "."
-    ctx.check(found_loop and split_ok, init.short, "check_name over all name components", "every '.'-separated component of the full name must pass check_name", init.where(), {"loop": found_loop, "split_on_dot": split_ok})
-
-    # attribute-name uniqueness: a raise of an IDE subclass guarded by `a.name in used_names` inside a loop over the attributes
-    uniq = False
-    for p in paths:
-        if p.kind == "raise" and _is_ide(ctx, [init], c, unparse(p.value)):
-            conds = [(cnd, pol) for cnd, pol in p.conds if not isinstance(cnd, tuple)]
-            loops = [cnd for cnd, pol in p.conds if isinstance(cnd, tuple) and cnd[0] == "for" and pol]
-            if conds and loops:
-                last, pol = conds[-1]
-                ls = norm(last)
-                if pol and "in used_names" in ls and norm(loops[-1][2]) in ("self._attributes", "self.attributes", "list(attributes)", "attributes"):
-                    uniq = True
-    adds = [cl for cl in calls_in(init.node) if isinstance(cl.func, ast.Attribute) and cl.func.attr == "add" and norm(cl.func.value) == "used_names" and norm(cl.args[0]) == "a.name"]
-    ctx.check(uniq and bool(adds), init.short, "attribute name uniqueness", "two named attributes with the same name must be rejected", init.where(), {"guard": uniq, "recorded": bool(adds)})
+    bad = []
+    for label, (attrs, ok) in cases.items():
+        o = structure(ctx, attributes=attrs)
+        acc = outcome(o)
+        ctx.count()
+        if acc != ok or (not acc and o != "AttributeNameCollisionError"):
+            bad.append({"attributes": label, "found": "accepted" if acc else "rejected (%s)" % o})
+    ctx.check(not bad, anchor, "attribute name uniqueness", "two named attributes with the same name must be rejected; unnamed paddings may repeat", where, bad)
+    nonide = sorted(x for x in rejected if not _ide_name(ctx, x))
+    ctx.check(not nonide, anchor, "rejection classes: %s" % sorted(rejected), "rejections must be InvalidDefinitionError subclasses", where, nonide)
 
 
 # ---------------------------------------------------------------------------------------------------- R4
